@@ -356,6 +356,8 @@ def c17(res: CheckResult) -> None:
              list(DF.fam_hier_small(res.tier, rng)), ic, rng=rng)
     def_unit(res, "classes decorated with invariants after their subclasses have been created, in every order",
              list(DF.fam_late_inv(res.tier, rng)), ic, verdicts=True, rng=rng)
+    def_unit(res, "properties re-declared with some accessors (also @Base.f.getter, which shares the setter object with the base)",
+             list(DF.fam_accessors(res.tier, rng)), ic, verdicts=True, rng=rng)
 
 
 @check("C18")
